@@ -128,6 +128,9 @@ pub struct Scenario {
     /// the second caller key is the first one once more, read from a description of it that carries
     /// another `keyid` member; the layout lists the owner's signature a second time under that id
     pub alias_described: bool,
+    /// the caller also supplies a key that cannot verify anything (an RSA key imported with a scheme the
+    /// library does not know); the layout lists an entry under that key's id (`dup_first_sig_as`)
+    pub caller_unusable: bool,
 }
 
 // ------------------------------------------------------------------ materialisation
@@ -441,12 +444,22 @@ fn inspections(pool: &[KeyInfo], b: &SBlock, d: &SDir, path: &str, out: &mut Vec
 // ------------------------------------------------------------------ running the real code
 
 /// the `TZ` the next verifications run under (`None`: the variable is left alone)
-/// name the link directory through a symbolic link and `..` in the next verifications
-pub static SPELL_LINK_DIR: std::sync::Mutex<bool> = std::sync::Mutex::new(false);
+/// how the link directory is named in the next verifications: 0 by its absolute path, 1 through a symbolic
+/// link and `..`, 2 `links`, 3 `./links/`, 4 `.`, 5 the empty text (4 and 5 from inside it), 6 absolute with a
+/// trailing separator
+pub static SPELL_LINK_DIR: std::sync::Mutex<u8> = std::sync::Mutex::new(0);
 
 thread_local! {
     /// this thread verifies next to others: do not touch the process's working directory
     pub static NO_CHDIR: std::cell::Cell<bool> = const { std::cell::Cell::new(false) };
+}
+
+/// A key that cannot verify anything: the first RSA key of the pool, imported from its SubjectPublicKeyInfo
+/// under a scheme the library does not know (the importer takes the scheme from the caller).
+pub fn unusable_key(pool: &[KeyInfo]) -> Option<PublicKey> {
+    let rsa = pool.iter().find(|k| *k.public().typ() == in_toto::crypto::KeyType::Rsa)?;
+    let spki = rsa.public().as_spki().ok()?;
+    PublicKey::from_spki(&spki, in_toto::crypto::SignatureScheme::Unknown("rsassa-pss-sha3-256".into())).ok()
 }
 
 /// does any layout of the scenario - the top one or a delegated one - list an inspection?
@@ -467,12 +480,17 @@ pub fn run_concurrently(pool: &[KeyInfo], scenarios: &[Scenario]) -> Vec<String>
     })
 }
 
+/// the next verifications read the system clock themselves (the clock hook is left unset)
+pub static REAL_CLOCK: std::sync::Mutex<bool> = std::sync::Mutex::new(false);
+
 pub static PROCESS_TZ: std::sync::Mutex<Option<String>> = std::sync::Mutex::new(None);
 
 pub struct Outcome {
     pub answer: String,
     pub ok: bool,
     pub panicked: bool,
+    /// the verification did not come back within the deadline
+    pub hung: bool,
     pub events: Vec<String>,
     pub op: String,
     /// members of the returned summary link that the summary is not made of (must be absent)
@@ -529,7 +547,8 @@ pub fn run_at(pool: &[KeyInfo], s: &Scenario, root: &Path, reversed: bool) -> Ou
     // how the link directory is named to the verifier: plainly, or through a symbolic link and back out of
     // it (`<root>/hop/../links`, `hop -> elsewhere/deep`): the operating system says which directory that is
     // (`<root>/elsewhere/links`), and that is where the scenario lies
-    let spelled = *SPELL_LINK_DIR.lock().unwrap();
+    let spelling = *SPELL_LINK_DIR.lock().unwrap();
+    let spelled = spelling == 1;
     let links = if spelled { tmp.join("elsewhere").join("links") } else { tmp.join("links") };
     if spelled {
         let _ = std::fs::create_dir_all(tmp.join("elsewhere").join("deep"));
@@ -579,12 +598,29 @@ pub fn run_at(pool: &[KeyInfo], s: &Scenario, root: &Path, reversed: bool) -> Ou
     }
     // (several verifications at once, on threads of their own, leave the process's working directory alone:
     // they are scenarios without inspections, which is all the working directory is for)
+    if s.caller_unusable {
+        if let Some(p) = unusable_key(pool) {
+            keys.insert(p.key_id().clone(), p);
+        }
+    }
     let chdir = !NO_CHDIR.with(|c| c.get());
     let old = if chdir { std::env::current_dir().unwrap() } else { PathBuf::new() };
+    // other ways to name the same directory: relative to the working directory (`links`, `./links`), with a
+    // trailing separator, and - the working directory being the link directory itself - `.` and the empty text
+    // (those three for scenarios without inspections, whose working directory is otherwise their own)
+    let relative = chdir && matches!(spelling, 2 | 3 | 4 | 5) && !has_inspections(&s.block, &s.dir);
     if chdir {
-        std::env::set_current_dir(&cwd).unwrap();
+        std::env::set_current_dir(if relative && matches!(spelling, 4 | 5) { &links } else if relative { tmp } else { &cwd }).unwrap();
     }
-    let links_str = if spelled { tmp.join("hop").join("..").join("links").to_str().unwrap().to_string() } else { links.to_str().unwrap().to_string() };
+    let links_str = if spelled {
+        tmp.join("hop").join("..").join("links").to_str().unwrap().to_string()
+    } else if relative {
+        match spelling { 2 => "links".to_string(), 3 => "./links/".to_string(), 4 => ".".to_string(), _ => String::new() }
+    } else if spelling == 6 {
+        format!("{}/", links.to_str().unwrap())
+    } else {
+        links.to_str().unwrap().to_string()
+    };
     let name = s.name.clone();
     let refile = s.mem_refile;
     // the time zone of the verifying process (`TZ`): an instant is an instant wherever the verifier sits.
@@ -595,8 +631,9 @@ pub fn run_at(pool: &[KeyInfo], s: &Scenario, root: &Path, reversed: bool) -> Ou
     }
     let now = s.now;
     let in_thread = tz.is_some();
+    let real_clock = *REAL_CLOCK.lock().unwrap();
     let body = move || {
-    in_toto::verif_hooks::set_now(Some(now));
+    in_toto::verif_hooks::set_now(if real_clock { None } else { Some(now) });
     let res = guarded(std::panic::AssertUnwindSafe(|| {
         let mut block: Metablock = serde_json::from_str(&text).map_err(|e| format!("parse: {}", e))?;
         if let (Some(kind), MetadataWrapper::Layout(l)) = (refile, &mut block.metadata) {
@@ -616,7 +653,15 @@ pub fn run_at(pool: &[KeyInfo], s: &Scenario, root: &Path, reversed: bool) -> Ou
     in_toto::verif_hooks::set_now(None);
     res
     };
-    let res = if in_thread { std::thread::spawn(body).join().unwrap_or(Err(())) } else { body() };
+    // (always on a thread of its own, with a deadline: verification terminates on every input, and a harness
+    // that waited for ever would turn a hang into silence)
+    // (a verification that runs next to others - `NO_CHDIR` - is on a thread of its own already)
+    let own_thread = in_thread || !chdir;
+    let already_hung = crate::proto::HUNG.load(std::sync::atomic::Ordering::SeqCst);
+    let (res, hung) = match crate::proto::with_deadline_on(60, own_thread, body) {
+        Some(r) => (r, false),
+        None => (Err(()), true),
+    };
     if tz.is_some() {
         std::env::remove_var("TZ");
     }
@@ -725,6 +770,7 @@ pub fn run_at(pool: &[KeyInfo], s: &Scenario, root: &Path, reversed: bool) -> Ou
         _ => None,
     };
     let (answer, ok, panicked) = match &res {
+        Err(()) if hung => ((if already_hung { "not-started-after-a-hang" } else { "hung" }).to_string(), false, false),
         Err(()) => ("panic".to_string(), false, true),
         Ok(Err(_)) => (format!("err {}", ev_err), false, false),
         Ok(Ok(mb)) => match &mb.metadata {
@@ -741,8 +787,15 @@ pub fn run_at(pool: &[KeyInfo], s: &Scenario, root: &Path, reversed: bool) -> Ou
     for &k in &s.caller_keys {
         op.push_str(&format!(" {}", kid(pool, k)));
     }
+    if s.caller_unusable {
+        if let Some(p) = unusable_key(pool) {
+            // (one more supplied key, in the count as well)
+            op = op.replacen(&format!(" K {}", s.caller_keys.len()), &format!(" K {}", s.caller_keys.len() + 1), 1);
+            op.push_str(&format!(" {}", serde_json::to_value(p.key_id()).unwrap().as_str().unwrap()));
+        }
+    }
     op.push_str(&format!(" {} {} {}", enc_block(pool, &s.block), enc_dir(pool, &s.dir), runs));
-    Outcome { answer, ok, panicked, events, op, summary_extra, top_events_in_order, inspection_material_faults }
+    Outcome { answer, ok, panicked, hung: hung && !already_hung, events, op, summary_extra, top_events_in_order, inspection_material_faults }
 }
 
 // ------------------------------------------------------------------ generator
@@ -1047,7 +1100,7 @@ impl<'a> Gen<'a> {
                 dir.subs[n].1 = sd;
             }
         }
-        Scenario { block, caller_keys: owners, alias_ids: false, dir, name: if self.r.chance(1, 2) { Some("final".into()) } else { None }, now: self.now, faults: vec![], mem_refile: None, alias_described: false }
+        Scenario { block, caller_keys: owners, alias_ids: false, dir, name: if self.r.chance(1, 2) { Some("final".into()) } else { None }, now: self.now, faults: vec![], mem_refile: None, alias_described: false, caller_unusable: false }
     }
 }
 
